@@ -6,6 +6,8 @@ import (
 	"errors"
 	"fmt"
 	"io"
+	"runtime"
+	"strings"
 	"sync"
 	"time"
 
@@ -36,6 +38,22 @@ type tapRec struct {
 	readErrs []string
 	kex      []kexObs
 	nkW, nkR int // NEWKEYS written / read without error
+	cond     *sync.Cond
+}
+
+func newTapRec() *tapRec {
+	t := &tapRec{}
+	t.cond = sync.NewCond(&t.mu)
+	return t
+}
+
+// waitNewKeys parks until at least n NEWKEYS were written and n were read.
+func (t *tapRec) waitNewKeys(n int) {
+	t.mu.Lock()
+	for t.nkW < n || t.nkR < n {
+		t.cond.Wait()
+	}
+	t.mu.Unlock()
 }
 
 func (t *tapRec) tap() *ssh.VerifTap {
@@ -49,6 +67,7 @@ func (t *tapRec) tap() *ssh.VerifTap {
 			if err == nil && len(p) > 0 && p[0] == msgNewKeys {
 				t.mu.Lock()
 				t.nkW++
+				t.cond.Broadcast()
 				t.mu.Unlock()
 			}
 		},
@@ -60,6 +79,7 @@ func (t *tapRec) tap() *ssh.VerifTap {
 				t.reads = append(t.reads, tapEv{seq, p})
 				if len(p) > 0 && p[0] == msgNewKeys {
 					t.nkR++
+					t.cond.Broadcast()
 				}
 			}
 			t.mu.Unlock()
@@ -119,8 +139,24 @@ func await(n int, ch <-chan struct{}) (got int, stalled bool, dump string, giveU
 			if idle < 8 {
 				continue
 			}
-			frozen, _, d := mon.Quiescent(3, 25*time.Millisecond, "os/signal.loop", "runtime.ensureSigM", "signal.signal_recv")
+			frozen, gs, d := mon.Quiescent(3, 25*time.Millisecond, "os/signal.loop", "runtime.ensureSigM", "signal.signal_recv")
+			if frozen && !allParked(gs) {
+				frozen = false
+			}
 			if frozen {
+				// nobody can run any more: whoever finished has already reported
+				for got < n {
+					select {
+					case <-ch:
+						got++
+						continue
+					default:
+					}
+					break
+				}
+				if got >= n {
+					return got, false, "", ""
+				}
 				return got, true, d, ""
 			}
 			idle = 4
@@ -130,6 +166,37 @@ func await(n int, ch <-chan struct{}) (got int, stalled bool, dump string, giveU
 		}
 	}
 	return got, false, "", ""
+}
+
+// parkedStates are the goroutine states that only another goroutine of this
+// process can end (there is no network and no timer in the closed system).
+var parkedStates = map[string]bool{
+	"chan receive": true, "chan send": true, "select": true, "sync.Cond.Wait": true, "sync.Mutex.Lock": true,
+	"sync.RWMutex.Lock": true, "sync.RWMutex.RLock": true, "semacquire": true, "sync.WaitGroup.Wait": true,
+	"chan receive (nil chan)": true, "chan send (nil chan)": true, "select (no cases)": true,
+	"GC worker (idle)": true, "GC sweep wait": true, "GC scavenge wait": true, "finalizer wait": true,
+	"force gc (idle)": true, "cleanup wait": true, "IO wait": true,
+}
+
+// allParked is a second, stricter look at the goroutines mon.Quiescent
+// called frozen: every one except the caller must be in a state from the
+// list above (anything unknown counts as "may still move").
+func allParked(gs []mon.G) bool {
+	self := make([]byte, 64)
+	self = self[:runtime.Stack(self, false)]
+	me := ""
+	if f := strings.Fields(string(self)); len(f) > 1 {
+		me = f[1]
+	}
+	for _, g := range gs {
+		if g.ID == me {
+			continue
+		}
+		if !parkedStates[g.State] {
+			return false
+		}
+	}
+	return true
 }
 
 // ---- Go <-> Go through the MITM ----------------------------------------------
@@ -245,6 +312,7 @@ type goGo struct {
 	cliChans     <-chan ssh.NewChannel
 	cliReqs      <-chan *ssh.Request
 	endpointDone chan struct{}
+	abandoned    bool // a constructor stayed blocked after all connections were closed
 }
 
 // startGoGo connects a client and a server through a MITM performing ed and
@@ -252,7 +320,7 @@ type goGo struct {
 // ssh.VerifNewClientConn/VerifNewServerConn (taps recording) or the plain
 // public constructors.
 func startGoGo(kex string, su suite, rekey uint64, ed edit, tapped bool) *goGo {
-	g := &goGo{tapC: &tapRec{}, tapS: &tapRec{}, endpointDone: make(chan struct{}, 2)}
+	g := &goGo{tapC: newTapRec(), tapS: newTapRec(), endpointDone: make(chan struct{}, 2)}
 	var cM, sM *duplexEnd
 	g.cE, cM = newDuplex("client", "mitm-c")
 	sM, g.sE = newDuplex("mitm-s", "server")
@@ -296,8 +364,8 @@ func startGoGo(kex string, su suite, rekey uint64, ed edit, tapped bool) *goGo {
 		g.x.stop()
 		g.cE.Close()
 		g.sE.Close()
-		for ; got < 2; got++ {
-			<-g.endpointDone
+		if g2, _, _, _ := await(2-got, g.endpointDone); g2 < 2-got {
+			g.abandoned = true
 		}
 	}
 	return g
